@@ -71,6 +71,10 @@ Roots ==
          Call(ff, << L, L, L, L >>),
          CallKw(F, << A >>, << KwArg("k1", A) >>),
          CallKw(F, << >>, << KwArg("k2", A), KwArg("k1", L) >>),
+         \* keywords spelt like names an implementation uses for its own parameters
+         CallKw(F, << L >>, << KwArg("expr", A) >>), CallKw(F, << >>, << KwArg("self", A) >>),
+         CallKw(F, << A >>, << KwArg("args", L), KwArg("kwargs", L) >>),
+         CallKw(F, << >>, << KwArg("expression", A), KwArg("context", L) >>),
          CallKw(ff, << L >>, << KwArg("zz", L) >>) }
   \cup { Look(A, nm) : nm \in {"p", "q", "zz"} }
   \cup { CSE0(A), CSE(A, "pre", "pymbolic_global") }
